@@ -305,7 +305,8 @@ def c08(F: Facts):
             v.append(('C08.a', f'event {r.get("ev")} had been observed complete; looked at again in a later event loop: status={r.get("status")} completion signalled={r.get("sig")} await -> {r.get("await")}'))
     # awaiting a forwarded event waits for the handlers of every bus it is forwarded to
     for r in F.tr:
-        if r['k'] == 'a-await-end' and not r.get('exc'):
+        if (r['k'] == 'a-await-end' and not r.get('exc')) or (r['k'] == 'aw-end' and not r.get('acc') and not F.sc.get('timeouts')):
+            # (an await from ordinary code, or - in scenarios without timeouts - an await inside a handler)
             ev = r['ev']
             for (b, e), idxs in F.enq.items():
                 if e != ev or idxs[0] > r['i']:
@@ -617,7 +618,7 @@ def c11(F: Facts):
                         v.append(('C11.a', f'handler h{hi} of event {ev} on {bus} raised but its result is {r["st"]}'))
                     elif r['errkey'] != list(me):
                         v.append(('C11.a', f'handler h{hi} of event {ev} on {bus} raised, but the recorded error ({r["err"]}) is not the object it raised'))
-                elif spec.get('ret') == 'excobj':
+                elif spec.get('ret') in ('excobj', 'excobj_to'):
                     if r['st'] != 'error' or r['errkey'] != list(me):
                         v.append(('C11.a', f'handler h{hi} of event {ev} on {bus} returned an exception object; result is {r["st"]} err={r["err"]} (same object: {r["errkey"] == list(me)})'))
                 else:
